@@ -31,7 +31,9 @@ type connOut struct {
 	LeakWait bool
 }
 
-func (o *connOut) ok() bool { return o.Res.ClientErr == nil && o.Res.ServerErr == nil && !o.Res.TimedOut }
+func (o *connOut) ok() bool {
+	return o.Res.ClientErr == nil && o.Res.ServerErr == nil && !o.Res.TimedOut
+}
 func (o *connOut) bothFailed() bool {
 	return o.Res.ClientErr != nil && o.Res.ServerErr != nil && !o.Res.TimedOut
 }
